@@ -49,6 +49,8 @@ func checkC05(r *Run) {
 	r.Rule("R5", "the reflect call site inspects the trailing error result and returns before the first result is used", 1)
 	r.Rule("R6", "a failed operation leaves nothing behind: what a call returns together with an error is stored into memory that outlives the call (package variables, maps and fields reached from them or from a parameter) only where that error is known to be nil", 1)
 	noFailedResultKeptRule(r, "R6")
+	r.Rule("R7", "an error produced inside a loop is tested in that iteration: it is not merely carried round the loop to be looked at behind it (all but the last would be dropped)", 1)
+	loopCarriedErrorRule(r, "R7")
 	w := r.W
 	w.SSA()
 	licensed := map[*types.Func]bool{}
@@ -365,6 +367,19 @@ func errorFlow(r *Run, fn *ssa.Function, decl *FuncInfo) (tols []tolRecord) {
 		okAll := true
 		how := "returned or tested on every path"
 		for _, b := range fn.Blocks {
+			// the typed assertion made on the error itself, without a nil test in front of it
+			// (`if _, unknown := err.(*ErrUnknownIdentifier); unknown { return res, nil }`): its ok side is the tolerance
+			if iff, isIf := b.Instrs[len(b.Instrs)-1].(*ssa.If); isIf {
+				if ex, isEx := iff.Cond.(*ssa.Extract); isEx && ex.Index == 1 {
+					if ta, isTA := ex.Tuple.(*ssa.TypeAssert); isTA && ta.CommaOk && al[ta.X] {
+						if pt, isPtr := ta.AssertedType.(*types.Pointer); isPtr && namedIs(pt.Elem(), modPath, "ErrUnknownIdentifier") {
+							how = "typed tolerance of *ErrUnknownIdentifier"
+							tols = append(tols, tolRecord{name: name, con: con, pos: pos, decl: decl})
+							continue
+						}
+					}
+				}
+			}
 			nn, nb, ok := nilTest(b, al)
 			if !ok {
 				// the error tested through a predicate of the module: `if fails(err, ...) { return nil, err }`
